@@ -42,6 +42,9 @@ def _cfg_for(name):
         if name in ("RandomSampling", "UncertaintySampling[margin_sampling]", "GreedySamplingX", "QueryByCommittee[KL_divergence]"):
             # two features: feature-row candidates are then a matrix whose size differs from its length
             out.append(dict(strat=name, n=3, mode="rows", b=4, feats=2))
+        if name == "Badge":
+            # three samples, batch of three: the k-means++ seeding has to go on after the all-distances-zero fallback
+            out.append(dict(strat=name, n=3, mode="none", b=3))
         if name in ("RandomSampling", "CoreSet", "GreedySamplingX", "TypiClust"):
             # integer labels with the sentinel -1 (strategies that need no model): the sentinel handed to the strategy
             # must reach every helper that decides what is labeled
